@@ -2,6 +2,7 @@ package main
 
 import (
 	"fmt"
+	"math"
 	"math/big"
 	"sort"
 	"unicode/utf8"
@@ -21,11 +22,12 @@ func wireOptInt(v any) string {
 // strStreams: correspondence stream `str` and the model-free oracles `strlaws` / `indlaws`
 func strStreams(ctx *common.Ctx, e *env, subs, invalid []string) {
 	r := ctx.R
-	st := ctx.NewStream("str", "Gojq.Regex.{strLength,indexStr,sliceStr,clampIndex,runeStart,strIndices,strIndex,strRindex,satInt} (Model/Regex.lean) = funcLength (string), indexString, sliceString, indices/funcIndex/funcRindex via indexFunc",
-		"length, .[i], .[i:j] (i, j over null and every integer in [-len-2, len+2] plus ±2^31, ±2^63, ±10^30), indices/index/rindex with every code-point substring of the subject and foreign needles; subjects: every string over the alphabet up to length 3 (quick: full i x j grid on lengths <= 2 and a third of length 3), random longer ones, 7 invalid-UTF-8 subjects; distinct = distinct implementation answers")
+	st := ctx.NewStream("str", "Gojq.Regex.{strLength,indexStr,sliceStr,sliceList,clampIndex,runeStart,strIndices,strIndex,strRindex} (Model/Regex.lean) on bounds converted by Gojq.{toInt?,toIntCeil?} (Model/Native/Base.lean) = funcLength (string), indexString, sliceString, slice, toInt/toIntCeil/floatToInt, indices/funcIndex/funcRindex via indexFunc",
+		"length, .[i], .[i:j] (i, j over null and every integer in [-len-2, len+2] plus ±2^31, ±2^63, ±10^30; FRACTIONAL and non-finite bounds: every half step in [-len-1.5, len+1.5], len±0.25, ±0.25, ±0.999999, -0.0, ±5e-324, ±(2^32+0.5), 2^53, ±1e300, ±2^63, the floats next to ±2^63, ±Inf, NaN — full grid on lengths <= 2, 16 random mixed pairs otherwise; the same bounds on the arrays [range(n)], n <= 4: lines `aslice`), indices/index/rindex with every code-point substring of the subject and foreign needles; subjects: every string over the alphabet up to length 3 (quick: full i x j grid on lengths <= 2 and a third of length 3), random longer ones, 7 invalid-UTF-8 subjects; distinct = distinct implementation answers")
 	qLen := compile(`length`)
 	qIdx := compile(`.[$i]`, "$i")
 	qSlice := compile(`.[$i:$j]`, "$i", "$j")
+	qASlice := compile(`[range($n)] | .[$i:$j]`, "$n", "$i", "$j")
 	qIndices := compile(`indices($x)`, "$x")
 	qIndex := compile(`index($x)`, "$x")
 	qRindex := compile(`rindex($x)`, "$x")
@@ -61,6 +63,38 @@ func strStreams(ctx *common.Ctx, e *env, subs, invalid []string) {
 	}
 	huge := []any{1 << 31, -(1 << 31), common.NormInt(bigPow(63)), common.NormInt(bigNeg(bigPow(63))), common.NormInt(bigPow(100)), common.NormInt(bigNeg(bigPow(100)))}
 
+	// fractional / non-finite bounds: toInt truncates the start, toIntCeil rounds the end up, both saturate
+	fr := r.Fork(0xF7AC)
+	specials := []any{math.Copysign(0, -1), 0.25, -0.25, 0.999999, -0.999999, 5e-324, -5e-324, 4294967296.5, -4294967296.5,
+		9007199254740992.0, 1e300, -1e300, 9223372036854775808.0, -9223372036854775808.0, 9223372036854774784.0, -9223372036854777856.0,
+		math.Inf(1), math.Inf(-1), math.NaN()}
+	fracsOf := func(n int) []any {
+		var fs []any
+		for k := -2*n - 3; k <= 2*n+3; k++ {
+			if k%2 != 0 {
+				fs = append(fs, float64(k)/2)
+			}
+		}
+		return append(fs, float64(n)+0.25, float64(n)-0.25, -float64(n)+0.25, -float64(n)-0.25)
+	}
+	isFloat := func(v any) bool { _, ok := v.(float64); return ok }
+	for n := 0; n <= 4; n++ {
+		bs := []any{nil}
+		for i := -n - 2; i <= n+2; i++ {
+			bs = append(bs, i)
+		}
+		bs = append(append(bs, fracsOf(n)...), specials...)
+		for _, i := range bs {
+			for _, j := range bs {
+				if !isFloat(i) && !isFloat(j) && !(ctx.Thorough || fr.Intn(4) == 0) {
+					continue
+				}
+				add(fmt.Sprintf("aslice %d %s %s", n, wireOptInt(i), wireOptInt(j)), run(qASlice, "", n, i, j))
+				st.Distribution["aslice"]++
+			}
+		}
+	}
+
 	orc := ctx.NewOracle("strlaws", "per valid subject: length == (explode|length); for every i, j in [-len-2, len+2]: .[i:j], .[i:], .[:i] == (explode|slice|implode) and .[i] == the i-th code point of explode; distinct = distinct subjects")
 	ind := ctx.NewOracle("indlaws", "per (valid subject, needle): indices/index/rindex == positions computed on explode, and slicing the subject at each reported position by the needle's length returns the needle; distinct = distinct (subject, needle) pairs with at least one occurrence")
 	indDistinct := map[string]bool{}
@@ -93,6 +127,42 @@ func strStreams(ctx *common.Ctx, e *env, subs, invalid []string) {
 				add("slice "+hexs(s)+" "+wireOptInt(i)+" "+wireOptInt(j), run(qSlice, s, i, j))
 				st.Distribution["slice"]++
 			}
+		}
+		fracs := fracsOf(n)
+		for _, i := range fracs {
+			add("index "+hexs(s)+" "+common.Canon(i), run(qIdx, s, i))
+			st.Distribution["index-frac"]++
+		}
+		if si%10 == 0 {
+			for _, h := range specials {
+				add("index "+hexs(s)+" "+common.Canon(h), run(qIdx, s, h))
+				add("slice "+hexs(s)+" "+common.Canon(h)+" n", run(qSlice, s, h, nil))
+				add("slice "+hexs(s)+" n "+common.Canon(h), run(qSlice, s, nil, h))
+				o := common.Pick(fr, specials)
+				add("slice "+hexs(s)+" "+common.Canon(o)+" "+common.Canon(h), run(qSlice, s, o, h))
+				st.Distribution["slice-frac"] += 3
+			}
+		}
+		if ctx.Thorough || n <= 2 {
+			fb := append([]any{nil}, fracs...)
+			for _, i := range fb {
+				for _, j := range fb {
+					if i == nil && j == nil {
+						continue
+					}
+					add("slice "+hexs(s)+" "+wireOptInt(i)+" "+wireOptInt(j), run(qSlice, s, i, j))
+					st.Distribution["slice-frac"]++
+				}
+			}
+		}
+		mixed := append(append(append([]any{}, bounds...), fracs...), specials...)
+		for k := 0; k < 16; k++ {
+			i, j := common.Pick(fr, mixed), common.Pick(fr, mixed)
+			if !isFloat(i) && !isFloat(j) {
+				i = common.Pick(fr, fracs)
+			}
+			add("slice "+hexs(s)+" "+wireOptInt(i)+" "+wireOptInt(j), run(qSlice, s, i, j))
+			st.Distribution["slice-frac"]++
 		}
 		// needles: every code-point substring, plus foreign ones
 		rs := []rune(s)
